@@ -25,7 +25,7 @@ def escAscii (b : UInt8) : Bytes :=
   else [b]
 
 /-- `c == utf8.RuneError && size == 1` -/
-def Rune.invalid (r : Rune) : Bool := r.cp == 0xFFFD && r.more.isEmpty
+def _root_.Spok.Rune.invalid (r : Rune) : Bool := r.cp == 0xFFFD && r.more.isEmpty
 
 def encRune (r : Rune) : Bytes :=
   if r.b0.toNat < 128 then escAscii r.b0
@@ -72,7 +72,12 @@ def utf16pair (r1 r2 : Nat) : Nat :=
 def cons? (h : Bytes) (t : Option Bytes) : Option Bytes := t.map (h ++ ·)
 
 /-- is this rune the ASCII byte `c`? -/
-def Rune.is (r : Rune) (c : Nat) : Bool := r.b0.toNat == c
+def _root_.Spok.Rune.is (r : Rune) (c : Nat) : Bool := r.b0.toNat == c
+
+/-- `getu4(s[r:])` for the second half of a surrogate pair: the value when the runes begin with `\uXXXX` -/
+def peekU4 : List Rune → Option Nat
+  | b :: u :: g1 :: g2 :: g3 :: g4 :: _ => if b.is 92 && u.is 117 then getu4 g1.b0 g2.b0 g3.b0 g4.b0 else none
+  | _ => none
 
 /-- the loop of `unquoteBytes` over the runes between the quotes; `none` = `ok == false` -/
 def unqRunes : List Rune → Option Bytes
@@ -97,16 +102,11 @@ def unqRunes : List Rune → Option Bytes
             | none => none
             | some rr =>
               if isSurrogate rr then
-                match rs2 with
-                | b :: u :: g1 :: g2 :: g3 :: g4 :: rs3 =>
-                  if b.is 92 && u.is 117 then
-                    match getu4 g1.b0 g2.b0 g3.b0 g4.b0 with
-                    | some rr1 =>
-                      if utf16pair rr rr1 != 0xFFFD then cons? (utf8enc (utf16pair rr rr1)) (unqRunes rs3)
-                      else cons? (utf8enc 0xFFFD) (unqRunes rs2)
-                    | none => cons? (utf8enc 0xFFFD) (unqRunes rs2)
+                match peekU4 rs2 with
+                | some rr1 =>
+                  if utf16pair rr rr1 != 0xFFFD then cons? (utf8enc (utf16pair rr rr1)) (unqRunes (rs2.drop 6))
                   else cons? (utf8enc 0xFFFD) (unqRunes rs2)
-                | _ => cons? (utf8enc 0xFFFD) (unqRunes rs2)
+                | none => cons? (utf8enc 0xFFFD) (unqRunes rs2)
               else cons? (utf8enc rr) (unqRunes rs2)
           | _ => none
         else none
@@ -114,6 +114,8 @@ def unqRunes : List Rune → Option Bytes
     else if c < 128 then cons? [r.b0] (unqRunes rs)
     else if r.invalid then cons? [0xEF, 0xBF, 0xBD] (unqRunes rs)
     else cons? r.bytes (unqRunes rs)
+termination_by l => l.length
+decreasing_by all_goals (simp only [List.length_cons, List.length_drop]; omega)
 
 /-- `unquoteBytes` on the text between the quotes -/
 def unqBody (body : Bytes) : Option Bytes := unqRunes (decodeAll body)
